@@ -42,6 +42,8 @@ class L:
             if n.id in bound or n.id in self.scalars:
                 return n.id
             raise Untranslatable('name %s' % n.id)
+        if isinstance(n, ast.UnaryOp) and isinstance(n.op, ast.USub):
+            return '(-%s)' % self.ex(n.operand, bound)
         if isinstance(n, ast.BinOp):
             op = {ast.Mult: '*', ast.Div: '/', ast.Add: '+', ast.Sub: '-'}.get(type(n.op))
             if op is None:
@@ -186,8 +188,106 @@ def lean_file(golden):
     return '\n'.join(out), status
 
 
+# ---------------------------------------------------------------------------------------------------------------------------------------
+# C16: the image sampler (srcmodel/img.py): `xFITSImage._build_cdf` and `rvs_coordinates`, read for one event
+IMG_WANT = [
+    'u = numpy.random.rand(size)',
+    'pixel = numpy.searchsorted(self.cdf, u)',
+    'row, col = numpy.unravel_index(pixel, self.data.shape)',
+    'pixel_coords = numpy.vstack((col, row)).transpose()',
+    'world_coords = self.wcs.wcs_pix2world(pixel_coords, 0)',
+    'ra, dec = (world_coords[:, 0], world_coords[:, 1])',
+]
+
+
+def translate_img():
+    img = importlib.import_module('ixpeobssim.srcmodel.img')
+    notes = []
+    fn = _func(img.xFITSImage, '_build_cdf')
+    body = [ast.unparse(s) for s in fn.body if not (isinstance(s, ast.Expr) and isinstance(s.value, ast.Constant))]
+    if body != ['cdf = numpy.cumsum(self.data.ravel().astype(float))', 'cdf /= cdf[-1]', 'return cdf']:
+        raise Untranslatable('_build_cdf reads %s' % body)
+    fn = _func(img.xFITSImage, '__init__')
+    body = [ast.unparse(s) for s in fn.body if not (isinstance(s, ast.Expr) and isinstance(s.value, ast.Constant))]
+    if body != ['xFITSImageBase.__init__(self, file_path)', 'self.cdf = self._build_cdf()']:
+        raise Untranslatable('xFITSImage.__init__ reads %s' % body)
+    fn = _func(img.xFITSImage, 'rvs_coordinates')
+    if [a.arg for a in fn.args.args] != ['self', 'size', 'randomize'] or [ast.unparse(d) for d in fn.args.defaults] != ['1', 'True']:
+        raise Untranslatable('rvs_coordinates signature')
+    stmts = [s for s in fn.body if not (isinstance(s, ast.Expr) and isinstance(s.value, ast.Constant))]
+    head = [ast.unparse(s).replace('(row, col) =', 'row, col =').replace('(ra, dec) =', 'ra, dec =') for s in stmts[:6]]
+    if head != IMG_WANT:
+        raise Untranslatable('rvs_coordinates reads %s' % [h for h in head if h not in IMG_WANT][:2])
+    if len(stmts) != 8 or not isinstance(stmts[6], ast.If) or ast.unparse(stmts[6].test) != 'randomize' or stmts[6].orelse or ast.unparse(stmts[7]) not in ('return (ra, dec)', 'return ra, dec'):
+        raise Untranslatable('tail of rvs_coordinates')
+    tr = L(['cdelt1', 'cdelt2', 'delta_ra', 'delta_dec', 'ra', 'dec'], [], [])
+    lines = []
+    deltas = {}
+    for s in stmts[6].body:
+        txt = ast.unparse(s)
+        if isinstance(s, ast.Assign) and ast.unparse(s.targets[0]) in ('delta_ra', 'delta_dec'):
+            v = ast.unparse(s.value).replace("self.primary_hdu.header['CDELT1']", 'cdelt1').replace("self.primary_hdu.header['CDELT2']", 'cdelt2')
+            lines.append('    let %s : α := %s' % (ast.unparse(s.targets[0]), tr.ex(ast.parse(v, mode='eval').body)))
+        elif isinstance(s, ast.AugAssign) and isinstance(s.op, ast.Add) and ast.unparse(s.target) in ('ra', 'dec'):
+            c = s.value
+            if not (isinstance(c, ast.Call) and ast.unparse(c.func) == 'numpy.random.uniform' and len(c.args) == 3 and ast.unparse(c.args[2]) == 'size' and not c.keywords):
+                raise Untranslatable('randomisation: %s' % txt)
+            lo, hi = tr.ex(c.args[0]), tr.ex(c.args[1])
+            uu = 'u1' if ast.unparse(s.target) == 'ra' else 'u2'
+            if uu in deltas:
+                raise Untranslatable('coordinate randomised twice')
+            deltas[uu] = True
+            lines.append('    let %s : α := %s + (%s + (%s - %s) * %s)' % (ast.unparse(s.target), ast.unparse(s.target), lo, hi, lo, uu))
+        else:
+            raise Untranslatable('randomisation: %s' % txt)
+    if sorted(deltas) != ['u1', 'u2'] or 'u1' not in lines[-2] or 'u2' not in lines[-1]:
+        raise Untranslatable('order of the two uniform draws')
+    notes.append('u, u1, u2: the three uniform variates of the event, in the order they are drawn (numpy.random.uniform(a, b) = a + (b − a)·u); pix2world: astropy WCS, a parameter')
+    out = ['/-- `numpy.searchsorted(a, v)` (side left) -/',
+           'def searchLeft {α : Type} [RealLike α] (a : List α) (v : α) : Nat := (a.takeWhile (fun x => decide (x < v))).length',
+           '/-- `numpy.cumsum` -/',
+           'def cumsum {α : Type} [RealLike α] : α → List α → List α', '  | _, [] => []', '  | acc, x :: xs => (acc + x) :: cumsum (acc + x) xs', '',
+           '/-- `xFITSImage._build_cdf` on the flattened (row-major) image -/',
+           'def build_cdf {α : Type} [RealLike α] (data : List α) : List α :=',
+           '  let cdf := cumsum (0.0 : α) data',
+           '  cdf.map fun x => x / (cdf.getLast?.getD (0.0 : α))', '',
+           '/-- `xFITSImage.rvs_coordinates`, one event -/',
+           'def rvs_coordinates {α : Type} [RealLike α] (cdf : List α) (nrows ncols : Nat) (pix2world : Nat → Nat → α × α) (cdelt1 cdelt2 : α) (randomize : Bool) (u u1 u2 : α) : α × α :=',
+           '  let pixel := searchLeft cdf u',
+           '  let (row, col) := (pixel / ncols, pixel % ncols)      -- numpy.unravel_index(pixel, (nrows, ncols))',
+           '  let (ra, dec) := pix2world col row                     -- vstack((col, row)).T through wcs_pix2world(·, 0); columns 0 and 1',
+           '  if randomize then'] + lines + ['    (ra, dec)', '  else (ra, dec)', '']
+    return '\n'.join(out), notes
+
+
+IMG_NAMES = ['img_build_cdf', 'img_rvs_coordinates']
+
+
+def lean_file_img(golden):
+    out = ['import IxpeVerif.Num', '/-! Generated by translator/lamtrans.py (image sampler) from the /repo working tree — do not edit. -/', 'set_option linter.unusedVariables false',
+           'namespace Gen.Img', '']
+    status = {}
+    key = 'img:all'
+    try:
+        txt, notes = translate_img()
+        for n in IMG_NAMES:
+            status[n] = dict(tie='translated', differs_from_golden=golden.get(key) not in (None, txt), notes=notes, qual='xFITSImage._build_cdf / rvs_coordinates', module='ixpeobssim.srcmodel.img')
+        golden[key] = txt
+    except Exception as e:
+        txt = golden.get(key)
+        if txt is None:
+            raise
+        for n in IMG_NAMES:
+            status[n] = dict(tie='correspondence-only', reason='%s: %s' % (type(e).__name__, e), qual='xFITSImage._build_cdf / rvs_coordinates', module='ixpeobssim.srcmodel.img')
+    out += [txt, 'end Gen.Img', '']
+    return '\n'.join(out), status
+
+
 if __name__ == '__main__':
     import sys
     txt, st = lean_file({})
+    print(txt)
+    print(st, file=sys.stderr)
+    txt, st = lean_file_img({})
     print(txt)
     print(st, file=sys.stderr)
